@@ -201,7 +201,7 @@ class Run:
         return ok
 
     # ---------------------------------------------------------------- driver
-    def drive(self, family, shards=1, extra_args=(), race=False, env=None, timeout=3000):
+    def drive(self, family, shards=1, extra_args=(), race=False, env=None, timeout=3000, crash_ok=False):
         vc = self.build_harness(race=race)
         out = os.path.join(self.scratch, "trace-%s" % family)
         os.makedirs(out, exist_ok=True)
@@ -217,6 +217,11 @@ class Run:
             r = subprocess.run(cmd, env=e, capture_output=True, text=True, timeout=timeout, errors="replace")
         except subprocess.TimeoutExpired:
             raise Infra("driver %s timed out" % family)
+        if r.returncode != 0 and crash_ok and re.search(r"^(fatal error: |panic: )", r.stderr, re.M) and "\ngoroutine " in r.stderr:
+            # a Go runtime crash of the driver process: the caller decides what it means
+            shutil.rmtree(sc, ignore_errors=True)
+            i = re.search(r"^(fatal error: |panic: )", r.stderr, re.M).start()
+            return None, {"crash": r.stderr[i:i + 6000]}
         if r.returncode != 0:
             raise Infra("driver %s failed rc=%d:\n%s\n%s" % (family, r.returncode, r.stdout[-3000:], r.stderr[-6000:]))
         stats = {}
